@@ -330,6 +330,32 @@ def d4(ctx, F):
             pl = r[1]["op"]["pl"]
         if pl is not None and (pl["l"] == 1 or flow.root_local(oi, pl["l"]) == 1) and [e for e in pl["p"] if isinstance(e, int)] == [caidx]:
             ca_written += 1
+    # validity windows: ValidityRange::new(days) is symmetric (not_before = now - days). webpki refuses any date before 1970, so the number
+    # of days any caller passes must keep not_before representable — at most 50 years back; `--no-expiry` keeps rcgen's default window
+    # by not calling valid_for_days at all
+    days_ok = True
+    seen_days = []
+    for p_, b_ in sorted(F.bodies.items()):
+        if not p_.startswith(P) or "{closure" in p_:
+            continue
+        ib_ = F.inlined(b_, only=(P,), keep=[CB + "valid_for_days"])
+        for c in ib_.calls():
+            if strip_generics(c.callee) == CB + "valid_for_days" and len(c.args) > 1:
+                r = flow.root(ib_, c.args[1])
+                vals = []
+                if r[0] == "const":
+                    vals = [flow.const_of(r[1])]
+                elif r[0] == "multi":
+                    for d_ in ib_.defs().get(r[1], []):
+                        if d_[0] == "assign" and d_[3]["k"] == "use":
+                            vals.append(flow.const_of(d_[3]["op"]))
+                        else:
+                            vals.append(None)
+                else:
+                    vals = [None]
+                seen_days += vals
+    days_ok = bool(seen_days) and all(isinstance(v, int) and 0 < v <= 18250 for v in seen_days)
+    ctx.check(days_ok, "C15.D4.validity-representable", "gen:validity-days", "every validity window requested from the symmetric ValidityRange keeps not_before after 1970 (days passed: %s)" % sorted(set(map(str, seen_days))), out.span)
     # every output file is (re)created empty: File::create, or OpenOptions with truncate(true) — otherwise a re-run leaves the tail of a
     # longer earlier file behind and the DER no longer parses
     trunc_ok = True
